@@ -711,7 +711,7 @@ func c10Child() int {
 
 func TestC10(t *testing.T) {
 	ev := vlib.NewEvidence("C10", "exploration",
-		"child process under the Go race detector (built with math_big_pure_go so big.Int digit writes are visible; reports collected with halt_on_error=0 and de-duplicated by the pair of innermost repository frames) running: (2) store histories of 6..16 goroutines on 2-4 keys (unique power-of-two balance deltas, reads, nonces, node registers) recorded at the API boundary and checked with porcupine per key, on both drivers; (3) pool rounds of 4..15 clients updating concurrently against shared hosts over Local, in-memory Remote, TCP Remote and HTTP, with per-host credit compared to the sum of individually acknowledged charges, zero-sum, client balance = last acknowledged reply, no conflict errors; (2c) registration races: SetNode racing the node's own keep-alives must win field by field; (2b) link races: credits to a node racing with AddAccountNode must all end up on the wallet; (4) snapshot immutability: values handed out by the stores are deep-hashed (incl. big.Int words) and re-hashed after later writes while a reader keeps re-reading them; plus the concurrent workloads of C01/C05/C07/C09/C14; non-trivial: overlapping same-key operations / more acknowledged updates than clients / >4 snapshots; distinct = case descriptors")
+		"child process under the Go race detector (built with math_big_pure_go so big.Int digit writes are visible; reports collected with halt_on_error=0 and de-duplicated by the pair of innermost repository frames) running: (2) store histories of 6..16 goroutines on 2-4 keys (unique power-of-two balance deltas, reads, nonces, node registers) recorded at the API boundary and checked with porcupine per key, on both drivers; (3) pool rounds of 4..15 clients updating concurrently against shared hosts over Local, in-memory Remote, TCP Remote and HTTP, with per-host credit compared to the sum of individually acknowledged charges, zero-sum, client balance = last acknowledged reply, no conflict errors; (2c) registration races: SetNode racing the node's own keep-alives must win field by field; (2b) link races: credits to a node racing with AddAccountNode must all end up on the wallet; (4) snapshot immutability: values handed out by the stores are deep-hashed (incl. big.Int words) and re-hashed after later writes while a reader keeps re-reading them; plus the concurrent workloads of C01/C05/C07/C09/C14; non-trivial: overlapping same-key operations / more acknowledged updates than clients / >4 snapshots; distinct = case descriptors; (faults) concurrent keep-alives reporting expired peers under conflicts, concurrent updates while credit writes fail")
 	ev.Assume("one production-clock world in two leaves payPerInterval's clock unset so the lazy initialisation is on the path")
 	// sequential snapshot pass in this process (a mutated snapshot is reported
 	// even if the concurrent readers of the child crash on it)
